@@ -1,5 +1,6 @@
 import Hcl.Proofs.Region
 import Hcl.Proofs.LexSpans
+import Hcl.Proofs.ParseSpans
 import Hcl.Generated
 
 /-!
@@ -78,3 +79,28 @@ theorem C14_token_spans (cls : Lexer.CharCls) (input : List Char) :
 example (total lo s₁ e₁ s₂ e₂ : Nat) (t₁ t₂ : Lexer.Tok) (rest : List Lexer.Item)
     (h : Lexer.SpansFrom total lo (.tok s₁ t₁ e₁ :: .tok s₂ t₂ e₂ :: rest)) :
     lo ≤ s₁ ∧ s₁ < e₁ ∧ e₁ ≤ s₂ ∧ s₂ < e₂ ∧ e₂ ≤ total := ⟨h.1, h.2.1, h.2.2.2.1, h.2.2.2.2.1, h.2.2.2.2.2.1⟩
+
+/-! ### the spans of the expressions -/
+
+/-- **C14, expression spans**: when the expression parser model accepts a text, every node of the tree -- operators,
+    slices, concatenations, mux expressions and their options, set memberships and their members, operands in parentheses --
+    carries a non-empty byte range of that text, and the range of every sub-expression lies inside the range of the
+    expression it is part of.  So a diagnostic that shows the span of an expression, or of any part of it, shows a piece
+    of the user's text that contains the construct. -/
+theorem C14_expression_spans (cls : Lexer.CharCls) (text : List Char) (x : Parser.PEx)
+    (h : Parser.parseExpr cls text = some x) : x.Within 0 (Lexer.sizeOf' text) :=
+  Parser.parseExpr_spans cls text x h
+
+/-- the same for an expression read from the middle of a token sequence: its span starts at its first token, ends at
+    its last one, and the tokens left over start after it -/
+theorem C14_expression_extent (T fuel k : Nat) (ts rest : Parser.Toks) (lo : Nat) (x : Parser.PEx) (s e : Nat)
+    (hl : Parser.Laid T lo ts) (h : Parser.parseTier fuel k ts = some (x, s, e, rest)) :
+    lo ≤ s ∧ s < e ∧ e ≤ T ∧ x.Within s e ∧ Parser.Laid T e rest := by
+  obtain ⟨a, b, c, d⟩ := Parser.parseTier_spans fuel k ts rest lo x s e hl h
+  exact ⟨a, b, d.le, c, d⟩
+
+/-- what `Within` says for `a + b` -/
+example (s e s₁ e₁ s₂ e₂ : Nat) (a b : String) (h : (Parser.PEx.bin s e .add (.wire s₁ e₁ a) (.wire s₂ e₂ b)).Within 0 10) :
+    s < e ∧ e ≤ 10 ∧ s ≤ s₁ ∧ s₁ < e₁ ∧ e₁ ≤ e ∧ s ≤ s₂ ∧ s₂ < e₂ ∧ e₂ ≤ e := by
+  obtain ⟨_, h2, h3, ⟨h4, h5, h6⟩, h7, h8, h9⟩ := h
+  exact ⟨h2, h3, h4, h5, h6, h7, h8, h9⟩
